@@ -216,6 +216,8 @@ def c03(case, trace, settled=False):
         if k in ("play", "pause", "resume", "stop", "next", "previous", "seek", "deliver", "atf", "tick") \
                 and not consume_before and not t["modes"][0] and before != t["tl"]:
             yield ("no_consume_frame", {"call": k}, "playback operation altered the tracklist with consume off", i)
+        for hit in _retry_same_track(case, trace, i):
+            yield ("skips_only_unplayable", hit[1], hit[2], hit[3])
         pair = {"next": "getnext", "previous": "getprev", "atf": "geteot"}
         if settled and k in pair and i >= 2 and trace[i - 1]["op"][0] == pair[k] and trace[i - 1]["queue_len"] == 0:
             p = trace[i - 1]
@@ -225,23 +227,46 @@ def c03(case, trace, settled=False):
             j = i
             while j + 1 < len(trace) and trace[j + 1]["op"][0] == "deliver":
                 j += 1
+            if k == "atf" and p["a_uri"] is not None and p["a_state"] == "paused" and not p.get("atf_done") \
+                    and p["state"] == "paused":
+                # announced while paused: the switch completes after resume (and, with nothing
+                # preloaded, the end of the old stream)
+                if not (j + 1 < len(trace) and trace[j + 1]["op"][0] == "resume"):
+                    continue
+                j += 1
+                while j + 1 < len(trace) and trace[j + 1]["op"][0] in ("deliver", "eos"):
+                    j += 1
+            elif k == "atf" and not (p["a_uri"] is not None and p["a_state"] == "playing" and not p.get("atf_done")):
+                continue
             a = trace[j]
             if a["queue_len"] != 0 or a["diverged"]:
                 continue
-            if k == "atf" and not (p["a_uri"] is not None and p["a_state"] == "playing"):
-                continue
             kind = {"next": "next", "previous": "previous", "atf": "eot"}[k]
+            ptrk = dict(p["tl"]).get(pred)
+            if ptrk is not None and case["kinds"][ptrk] != "playable":
+                # an unplayable prediction is skipped: it must simply never become current
+                if a["current"] == pred and a["state"] != "stopped":
+                    yield (f"predict_{kind}", {"call": k, "unplayable": True}, "an unplayable predicted track became current", j)
+                continue
+            if any(not ok for r in trace[i: j + 1] for _, ok in r["attempts"]):
+                continue  # a flaky refusal of the predicted track: the following candidate is taken
             msg = c03_prediction(pred, kind, p, a)
             if msg:
-                yield (f"predict_{kind}", {"call": k, "modes": "".join("1" if m else "0" for m in p["modes"]),
-                                          "state": p["state"]}, msg, j)
+                m = p["modes"]
+                if m[0] and m[1] and m[2] and len(p["tl"]) == 1 and pred == p["current"]:
+                    key = {"shape": "consume+random+repeat, single entry predicts itself"}
+                else:
+                    key = {"call": k, "modes": "".join("1" if x else "0" for x in m), "state": p["state"]}
+                yield (f"predict_{kind}", key, msg, j)
 
 
 def c03_prediction(pred, kind, before, after_settled):
     """pred: tlid|None announced; returns failure text or None.  before/after are trace rows."""
     if before["current"] is None or before["current"] not in [x for x, _ in before["tl"]]:
         return None  # scope: settled on a track that is in the tracklist
-    if kind == "eot" and before["state"] != "playing":
+    if before["pending"] is not None:
+        return None  # a switch is under way (preloaded stream not started yet): not settled
+    if kind == "eot" and before["state"] == "stopped":
         return None
     if after_settled["current"] != pred:
         return f"{kind}: predicted tlid {pred}, current became {after_settled['current']}"
@@ -296,6 +321,10 @@ def c05(case, trace):
             trk = known.get(t["current"])
             if trk is not None and case["kinds"][trk] != "playable" and t["state"] != "stopped":
                 yield ("failed_never_current", {"call": k}, "a failed track is reported as current", i)
+        for hit in _retry_same_track(case, trace, i):
+            yield hit
+        for hit in _consume_drops_unplayable(case, trace, i):
+            yield hit
         if t["modes"][0] and failed_in_op and k in ("play", "next", "previous", "atf", "seek", "deliver"):
             consume_before = trace[i - 1]["modes"][0] if i > 0 else False
             if consume_before:
@@ -303,6 +332,54 @@ def c05(case, trace):
                     if case["kinds"][trk] != "playable" and k != "previous":
                         # all entries of that track tried in this op must be gone unless retried successfully
                         pass
+
+
+def _retry_same_track(case, trace, i):
+    """play/next/previous/end-of-track try the FOLLOWING candidates: within one operation a track
+    is not asked again and again (at most twice per tracklist entry: the loops allow a second
+    pass over a reshuffled list)."""
+    t = trace[i]
+    if not t["attempts"] or t["op"][0] in ("load", "previous"):
+        return  # previous() under repeat/consume/random re-selects the same track by design
+    before = _prev_tl(trace, i)
+    mult = {}
+    for _, trk in before:
+        mult[trk] = mult.get(trk, 0) + 1
+    seen = {}
+    for trk, ok in t["attempts"]:
+        seen[trk] = seen.get(trk, 0) + 1
+    for trk, n in seen.items():
+        loops = 2 if t["op"][0] == "seek" else 1   # seek may run play() and then next()
+        if n > loops * (2 * max(mult.get(trk, 1), 1) + 1):
+            yield ("tries_following_candidates", {"call": t["op"][0], "random": bool(t["modes"][1])},
+                   f"track {trk} was asked {n} times in one operation instead of moving on to the next candidate", i)
+            return
+
+
+def _consume_drops_unplayable(case, trace, i):
+    """consume on, sequential order: when next/end-of-track moved past entries whose backend can
+    never play them, those entries are no longer in the tracklist."""
+    t = trace[i]
+    k = t["op"][0]
+    if k not in ("next", "atf") or i == 0 or t["exc"] or t["diverged"]:
+        return
+    p = trace[i - 1]
+    if not (p["modes"][0] and t["modes"][0]) or p["modes"][1] or p["modes"][2] or p["modes"][3]:
+        return  # consume on, random/repeat/single off
+    if k == "atf" and not (p["a_uri"] is not None and p["a_state"] == "playing" and p["state"] != "stopped"):
+        return
+    ref = p["pending"] if p["pending"] is not None else p["current"]
+    new = t["pending"] if t["pending"] is not None else t["current"]
+    ids = [x for x, _ in p["tl"]]
+    if ref is None or new is None or ref not in ids or new not in ids or new == ref:
+        return
+    a, b = ids.index(ref), ids.index(new)
+    if b <= a:
+        return
+    skipped = [(tid, trk) for tid, trk in p["tl"][a + 1: b] if case["kinds"][trk] != "playable"]
+    left = [tid for tid, _ in skipped if tid in [x for x, _ in t["tl"]]]
+    if left:
+        yield ("consume_drops_refused", {"call": k}, f"unplayable entries {left} were skipped but not dropped under consume", i)
 
 
 # --------------------------------------------------------------------------- C10
